@@ -90,6 +90,8 @@ def run_case(case, rng):
     rep = rng.choice(Bd.REPRS)
     if rng.random() < 0.08:
         rep = "annotated"       # equal-but-distinct state objects whose step note the reward function reads
+    if rng.random() < 0.1:
+        rep = rng.choice(["dsp_override", "quick_override"])       # models written by subclassing a library class and overriding its public methods
     if not rep.endswith("explicit"):
         G.restrict_to_closure(sp, rng)
     eps, cap, ph = _config(rng, sp.gamma)
